@@ -565,7 +565,13 @@ fn gen_source(rng: &mut Rng, words: &[String]) -> String {
                 5..=6 => format!("\"s{}\"", rng.below(13)),
                 7 => (*rng.pick(&["1.5", "0.0", "-0.0", "zznan", "2.5"])).to_string(),
                 8 => (*rng.pick(&["nil", "true", "|ff|", "[ 1 ]"])).to_string(),
-                _ => format!("{}", rng.below(3)),
+                // tagged values: compared by what they wrap
+                _ => match rng.below(4) {
+                    0 => format!("{} ^hex", rng.below(13)),
+                    1 => "zztagged".to_string(),
+                    2 => format!("\"s{}\" {{ 1 \"a\" }} with-tags", rng.below(13)),
+                    _ => format!("{}", rng.below(3)),
+                },
             });
         }
         toks.push("]".into());
@@ -597,6 +603,14 @@ fn gen_source(rng: &mut Rng, words: &[String]) -> String {
             "zzwide open-bitstr 5 bits drop 123 int 64 float",
             "zzmixed sort",
             "zzmixedreal sort",
+            // the canvas plugin (unknown words unless it is loaded): indices and sizes at the edges
+            "4 4 d2-resize 0 18446744073709551615 d2-data",
+            "3 5 d2-resize 18446744073709551615 0 d2-data",
+            "4 4 d2-resize 7 18446744073709551615 18446744073709551615 d2-data!",
+            "2 2 d2-resize 9223372036854775807 9223372036854775807 d2-data",
+            "0 0 d2-resize 0 0 d2-data",
+            "1 1 d2-resize 255 d2-color! 0 0 d2-data! d2-capture-rgba",
+            "4 4 d2-resize [ 1 2 3 ] d2-palette! 300 d2-color! 3 3 d2-data!",
 
             "include \"loop.xeh\"",
             "\"bin.dat\" read-all",
